@@ -76,6 +76,15 @@ package strategy
 //@             (result.PodsToDelete[i] in params.PodByNodeName) && params.PodByNodeName[result.PodsToDelete[i]] != nil
 //@             && params.PodByNodeName[result.PodsToDelete[i]].ObjectMeta.DeletionTimestamp == nil
 //@             && !compareCurrentPodWithNewPod(params, params.PodByNodeName[result.PodsToDelete[i]], result.PodsToDelete[i])
+//@   ensures [C03] no-available-pod-is-replaced-before-an-unavailable-one: forall i int, j int :: 0 <= i && i < j && j < len(result.PodsToDelete)
+//@             && podutils.IsPodAvailable(params.PodByNodeName[result.PodsToDelete[i]], 0, metaNow)
+//@             ==> podutils.IsPodAvailable(params.PodByNodeName[result.PodsToDelete[j]], 0, metaNow)
+//@   ensures [C03] an-available-pod-is-replaced-only-with-every-unavailable-outdated-pod: forall i int, n *NodeItem :: 0 <= i && i < len(result.PodsToDelete)
+//@             && podutils.IsPodAvailable(params.PodByNodeName[result.PodsToDelete[i]], 0, metaNow)
+//@             && (n in params.PodByNodeName) && params.PodByNodeName[n] != nil && params.PodByNodeName[n].Spec.NodeName != ""
+//@             && params.PodByNodeName[n].ObjectMeta.DeletionTimestamp == nil && !compareCurrentPodWithNewPod(params, params.PodByNodeName[n], n)
+//@             && !podutils.IsPodAvailable(params.PodByNodeName[n], 0, metaNow)
+//@             ==> exists j int :: 0 <= j && j < len(result.PodsToDelete) && result.PodsToDelete[j] == n
 //@   ensures [C04] canary-nodes-excluded: forall k int :: 0 <= k && k < len(params.CanaryNodes) ==> !(params.NodeByName[params.CanaryNodes[k]] in params.PodByNodeName)
 //@   ensures [C03,C09] delete-bound: result1 == nil ==> len(result.PodsToDelete) <= max(0,
 //@             fst(intstr.GetValueFromIntOrPercent(params.Strategy.RollingUpdate.MaxUnavailable, len(params.PodByNodeName), true)))
@@ -88,10 +97,11 @@ package strategy
 //@   loop 1 modifies mapof(params.PodByNodeName)
 //@   loop 2 invariant desiredPods == iter() && 0 <= availablePods && availablePods <= readyPods && readyPods <= createdPods
 //@   loop 2 invariant 0 <= allPods && 0 <= oldAvailablePods && 0 <= oldUnavailablePods && 0 <= podsTerminating && 0 <= nbIgnoredUnresponsiveNodes
-//@   loop 2 invariant root(allPodToCreate) != root(allPodToDelete)
-//@   loop 2 invariant [C03] budget-counts-only-deletable-old-pods: oldAvailablePods + oldUnavailablePods == len(allPodToDelete)
-//@   loop 2 invariant [C03] pods-partition: allPods == createdPods + len(allPodToDelete) + podsTerminating
-//@   loop 2 invariant createdPods + len(allPodToCreate) + len(allPodToDelete) + podsTerminating + nbIgnoredUnresponsiveNodes == iter()
+//@   loop 2 invariant root(allPodToCreate) != root(allPodToDelete) && root(allPodToCreate) != root(oldAvailablePodToDelete)
+//@             && root(allPodToDelete) != root(oldAvailablePodToDelete)
+//@   loop 2 invariant [C03] budget-counts-only-deletable-old-pods: oldUnavailablePods == len(allPodToDelete) && oldAvailablePods == len(oldAvailablePodToDelete)
+//@   loop 2 invariant [C03] pods-partition: allPods == createdPods + len(allPodToDelete) + len(oldAvailablePodToDelete) + podsTerminating
+//@   loop 2 invariant createdPods + len(allPodToCreate) + len(allPodToDelete) + len(oldAvailablePodToDelete) + podsTerminating + nbIgnoredUnresponsiveNodes == iter()
 //@   loop 2 invariant forall j int :: 0 <= j && j < len(allPodToCreate) ==> (allPodToCreate[j] in params.PodByNodeName)
 //@             && params.PodByNodeName[allPodToCreate[j]] == nil && 0 <= iteridx(allPodToCreate[j]) && iteridx(allPodToCreate[j]) < iter()
 //@   loop 2 invariant forall j int, k int :: 0 <= j && j < k && k < len(allPodToCreate) ==> iteridx(allPodToCreate[j]) < iteridx(allPodToCreate[k])
@@ -99,6 +109,17 @@ package strategy
 //@             && params.PodByNodeName[allPodToDelete[j]] != nil
 //@             && params.PodByNodeName[allPodToDelete[j]].ObjectMeta.DeletionTimestamp == nil
 //@             && !compareCurrentPodWithNewPod(params, params.PodByNodeName[allPodToDelete[j]], allPodToDelete[j])
+//@             && !podutils.IsPodAvailable(params.PodByNodeName[allPodToDelete[j]], 0, metaNow)
+//@   loop 2 invariant forall j int :: 0 <= j && j < len(oldAvailablePodToDelete) ==> (oldAvailablePodToDelete[j] in params.PodByNodeName)
+//@             && params.PodByNodeName[oldAvailablePodToDelete[j]] != nil
+//@             && params.PodByNodeName[oldAvailablePodToDelete[j]].ObjectMeta.DeletionTimestamp == nil
+//@             && !compareCurrentPodWithNewPod(params, params.PodByNodeName[oldAvailablePodToDelete[j]], oldAvailablePodToDelete[j])
+//@             && podutils.IsPodAvailable(params.PodByNodeName[oldAvailablePodToDelete[j]], 0, metaNow)
+//@   loop 2 invariant [C03] every-unavailable-outdated-pod-seen-is-listed-first: forall n *NodeItem :: (n in params.PodByNodeName) && 0 <= iteridx(n) && iteridx(n) < iter()
+//@             && params.PodByNodeName[n] != nil && params.PodByNodeName[n].Spec.NodeName != ""
+//@             && params.PodByNodeName[n].ObjectMeta.DeletionTimestamp == nil && !compareCurrentPodWithNewPod(params, params.PodByNodeName[n], n)
+//@             && !podutils.IsPodAvailable(params.PodByNodeName[n], 0, metaNow)
+//@             ==> exists j int :: 0 <= j && j < len(allPodToDelete) && allPodToDelete[j] == n
 //@   loop 3 invariant forall k int :: old(loglen()) <= k && k < loglen() && logverb(k) == "List" ==>
 //@             lognamespaced(k) && logns(k) == params.Replicaset.ObjectMeta.Namespace
 //@
